@@ -286,7 +286,24 @@ def main() -> None:
                           "common/macros.exps": shared}],
                ["compile", "a/main.exps"], ["compile", "a/b/deep.exps"], ["compile", "a/main.exps"],
                ["write", {"common/macros.exps": shared.replace("shared_op", "changed_op")}], ["compile", "a/b/deep.exps"]])
-    for steps, o in zip(fh, run_impl([("files:compile_files_history", st) for st in fh], chunksize=1)):
+    # two directories whose scripts import the same relative path: each gets the file next to it (what the first
+    # compilation resolved is no business of the second; a new compiler object in the same process would share a
+    # process-wide table, so the expectation is stated outright: the op of the directory's own library)
+    twin = 'import "./lib.exps";\ndef 0 {\n    ~greet();\n    end;\n}\n'
+    fh.append([["write", {"dirA/main.exps": twin, "dirA/lib.exps": "macro greet() {\n    from_a();\n}\n",
+                          "dirB/main.exps": twin, "dirB/lib.exps": "macro greet() {\n    from_b();\n    from_b2();\n}\n"}],
+               ["compile", "dirA/main.exps"], ["compile", "dirB/main.exps"], ["compile", "dirA/main.exps"]])
+    expect_ops = {len(fh) - 1: [["from_a", "End"], ["from_b", "from_b2", "End"], ["from_a", "End"]]}
+    for hi, (steps, o) in enumerate(zip(fh, run_impl([("files:compile_files_history", st) for st in fh], chunksize=1))):
+        if o.get("ok") and hi in expect_ops:
+            for n, ((reused, fresh), want) in enumerate(zip(o["results"], expect_ops[hi])):
+                got = [op["code"] for op in reused["ops"][0]] if reused.get("ok") else reused
+                run.count("files-history twin directories:" + ("ok" if got == want else "DIFFERENT"))
+                if got != want:
+                    run.fail("history-dependence:twin-directories", f"compile step {n} of a history over two directories that import the same "
+                             f"relative path gives the ops {got}; the file next to the compiled script says {want}",
+                             {"steps": steps, "observed": reused, "expected_op_names": want})
+                    break
         run.case(["files-history", steps], nontrivial=True)
         if not o.get("ok"):
             run.fail("files-history-crash", f"history over files failed: {o}", {"steps": steps})
